@@ -193,12 +193,31 @@ def st_world(draw, prof: Optional[Dict[str, Any]] = None) -> Dict[str, Any]:
         )
     # complete, time-varying tariff table by station id (C11 generates the partial ones)
     prices = None
+    price_key = "station_id"
+    search_res = draw(st.sampled_from([7, 7, 7, 8]))
     if p.get("prices_always") or draw(st.booleans()):
         prices = []
-        for when in [0] + sorted(draw(st.lists(st.integers(0, 40), max_size=2, unique=True))):
+        by_region = draw(st.sampled_from([False, False, False, True]))
+        whens = [0] + sorted(draw(st.lists(st.integers(0, 40), max_size=2, unique=True)))
+        if not by_region:
+            for when in whens:
+                for s in stations:
+                    for c, _, _ in s["plugs"]:
+                        prices.append([start + when * dt if when else 0, s["id"], c, draw(st.sampled_from([0.0, 0.05, 0.3, 0.6, 2.5]))])
+        else:
+            # the same complete tariff, keyed by region: one row per (enclosing cell at the search resolution or one coarser, plug type)
+            import h3
+
+            price_key = "geoid"
+            kres = search_res - draw(st.sampled_from([0, 0, 1]))
+            cells = {}
             for s in stations:
-                for c, _, _ in s["plugs"]:
-                    prices.append([start + when * dt if when else 0, s["id"], c, draw(st.sampled_from([0.0, 0.05, 0.3, 0.6, 2.5]))])
+                cell = h3.h3_to_parent(h3.geo_to_h3(*SITE_POOL[sites[s["site"]]], 15), kres)
+                cells.setdefault(cell, set()).update(c for c, _, _ in s["plugs"])
+            for when in whens:
+                for cell in sorted(cells):
+                    for c in sorted(cells[cell]):
+                        prices.append([start + when * dt if when else 0, cell, c, draw(st.sampled_from([0.0, 0.05, 0.3, 0.6, 2.5]))])
     rate = draw(st.sampled_from([None, [2.2, 1.6, 5.0], [0.0, 3.0, 0.0], [1.0, 0.0, 7.5]]))
     disp = {
         "matching_range_km_threshold": draw(st.sampled_from([20, 1, 5])),
@@ -220,7 +239,7 @@ def st_world(draw, prof: Optional[Dict[str, Any]] = None) -> Dict[str, Any]:
         "graph": graph,
         "sites": sites,
         "sim": {"start_time": start, "timestep_duration_seconds": dt, "request_cancel_time_seconds": timeout,
-                "sim_h3_search_resolution": draw(st.sampled_from([7, 7, 7, 8]))},
+                "sim_h3_search_resolution": search_res},
         "dispatcher": disp,
         "fleet_ids": fleet_ids,
         "vehicles": vehicles,
@@ -229,6 +248,7 @@ def st_world(draw, prof: Optional[Dict[str, Any]] = None) -> Dict[str, Any]:
         "requests": requests,
         "schedules": schedules,
         "prices": prices,
+        "price_key": price_key,
         "rate": rate,
         "builtin": draw(st.sampled_from(p["builtin"])),
         "n_scripted": draw(st.sampled_from(p["n_scripted"])),
